@@ -70,6 +70,18 @@ def run(case):
             return {"overlap": segs_of(tb, r)}
         t = mk_tl(tb, case["segs"])
         out = {"segmentation": segs_of(tb, t.segmentation()), "overlap": segs_of(tb, t.get_overlap())}
+        if tb.prec is None and case["regime"] == "K0" and len(case["segs"]) < 30:      # (dyadic grid: no sub-microsecond slivers)
+            # the same timeline with two open-ended segments added: still exactly the pieces between consecutive
+            # boundaries that some segment covers
+            from pyannote.core import Segment, Timeline
+            inf = float("inf")
+            mem = list(t)
+            lo_ = min([s_.start for s_ in mem] + [0]); hi_ = max([s_.end for s_ in mem] + [0])
+            opn = Timeline(mem + [Segment(-inf, lo_ + (hi_ - lo_) / 4), Segment(hi_ - (hi_ - lo_) / 4, inf), Segment(hi_ + 5, hi_ + 7)])
+            bnd = sorted({v for s_ in opn for v in (s_.start, s_.end)})
+            want = [(x, y) for x, y in zip(bnd, bnd[1:]) if any(s_.start <= x and y <= s_.end for s_ in opn)]
+            got = [(s_.start, s_.end) for s_ in opn.segmentation()]
+            assert got == want, "segmentation with open-ended segments: %r, expected %r" % (got, want)
         from harness.tlutil import assert_fresh
         assert_fresh(tb, lambda: t.segmentation(), "segmentation()")
         assert_fresh(tb, lambda: t.get_overlap(), "get_overlap()")
